@@ -49,6 +49,38 @@ def to_py(v):
     raise OutOfDomain(t)
 
 
+def _nonelike(base):
+    """a value of type `base` whose equality with None is TRUE (as beancount's Position with zero units has it): in a column
+    of datatype object such values are ordinary non-NULL values -- BQL's NULL is the identity `is None`, not equality"""
+    class NoneLike(base):
+        __slots__ = ()
+
+        def __eq__(self, other):
+            return True if other is None else base.__eq__(self, other)
+
+        def __ne__(self, other):
+            return False if other is None else base.__ne__(self, other)
+
+        __hash__ = base.__hash__
+    NoneLike.__name__ = NoneLike.__qualname__ = base.__name__
+    return NoneLike
+
+
+_NONELIKE = {int: _nonelike(int), D: _nonelike(D), str: _nonelike(str), datetime.date: _nonelike(datetime.date)}
+
+
+def to_py_object(v):
+    """realisation of an abstract value inside a column of datatype object: the same value, of a subclass with an unusual
+    equality (bools and NULL stay as they are)"""
+    x = to_py(v)
+    cls = _NONELIKE.get(type(x))
+    if cls is None:
+        return x
+    if cls is _NONELIKE[datetime.date]:
+        return cls(x.year, x.month, x.day)
+    return cls(x)
+
+
 def dec_of(n, d):
     """exact Decimal for n/d when d = 2^a 5^b, else the 28-digit quotient"""
     with decimal.localcontext() as c:
